@@ -18,7 +18,7 @@ CatT(dt, shape, off) == T(dt, shape, [k \in 1..Size(shape) |-> Cat(dt)[((k + off
 
 ExactCases(shape) ==
    /\ \A dt \in NumTypes, off \in {0, 5} :
-         LET X == CatT(dt, shape, off) s == SemAbs(X) IN P(CaseRec("exact", "Abs", <<LowerT(X)>>, LowerA(s), "num", <<Tag(s), dt>>, <<>>))
+         LET X == CatT(dt, shape, off) s == SemAbs(X) IN P(CaseRec("exact", "Abs", <<LowerT(X)>>, LowerA(s), "bits", <<Tag(s), dt>>, <<>>))    \* |-0| is +0: bit for bit
    /\ \A dt \in FloatTypes, off \in {0, 5} :
          LET X == CatT(dt, shape, off) s == SemRelu(X) IN P(CaseRec("exact", "Relu", <<LowerT(X)>>, LowerA(s), "num", <<Tag(s), dt>>, <<>>))
    /\ LET X == T("bool", shape, [k \in 1..Size(shape) |-> (k * k) % 3 = 1]) s == SemNot(X) IN P(CaseRec("exact", "Not", <<X>>, s, "num", <<Tag(s)>>, <<>>))
